@@ -45,7 +45,6 @@ func newInfluxDBOutNode(et *ExecutingTask, n *pipeline.InfluxDBOutNode, d NodeDi
 		batchBuffer: new(edge.BatchBuffer),
 	}
 	in.node.runF = in.runOut
-	in.node.stopF = in.stopOut
 	in.wb.i = in
 	return in, nil
 }
@@ -59,6 +58,9 @@ func (n *InfluxDBOutNode) runOut([]byte) error {
 
 	// Start the write buffer
 	n.wb.start()
+	// Flush and stop the write buffer once the input has been consumed.
+	// Not when the stop of the task is requested: the input edge may still hold points then.
+	defer n.stopBuffer()
 
 	// Create the database and retention policy
 	if n.i.CreateFlag {
@@ -143,7 +145,7 @@ func (n *InfluxDBOutNode) DeleteGroup(d edge.DeleteGroupMessage) (edge.Message, 
 }
 func (n *InfluxDBOutNode) Done() {}
 
-func (n *InfluxDBOutNode) stopOut() {
+func (n *InfluxDBOutNode) stopBuffer() {
 	n.wb.flush()
 	n.wb.abort()
 }
